@@ -148,7 +148,12 @@ func Parse(text string) []Report {
 		if len(t) > 6000 {
 			t = t[:6000] + "\n…"
 		}
-		out = append(out, Report{A: ab[0], B: ab[1], Harness: ha || hb, Text: t})
+		// A report counts against the harness only when neither stack has
+		// the code under test innermost: if one side is inside deps.dev code,
+		// that code touched memory another logically concurrent task uses
+		// (for instance a method that writes to its receiver while a reader
+		// copies the value).
+		out = append(out, Report{A: ab[0], B: ab[1], Harness: ha && hb, Text: t})
 	}
 	return out
 }
